@@ -44,8 +44,8 @@ Lemma to_string_carrier : forall ty v, carries ty v = true -> prints_alike ty v 
 Proof.
   intros ty v H P. destruct v as [z|t64 t32].
   - simpl. f_equal. destruct ty; simpl in H; apply in_range_iff in H; simpl in P; simpl; try reflexivity.
-    + (* uint: int(v) does not wrap below 2^63 *)
-      unfold wrap_int. rewrite P. reflexivity.
+    + (* uint *)
+      apply dec_N_Z. lia.
     + (* uint64 *)
       apply dec_N_Z. lia.
   - simpl. f_equal. destruct ty; simpl in H; try discriminate H.
@@ -133,9 +133,9 @@ Lemma float32_text_merges_two_numbers :
   /\ go_key_part GFloat32 w11 <> go_key_part GFloat64 d11.
 Proof. repeat split; try reflexivity; intro H; discriminate H. Qed.
 
-(* (2) uint: strconv.Itoa(int(v)) wraps at 2^63: uint(2^64-5) is counted together with int64(-5) *)
-Lemma uint_text_wraps :
+(* (2) uint (repaired, F47): uint(2^64-5) and int64(-5) are different numbers under different texts *)
+Lemma uint_text_no_wrap :
   carries GUint (NumInt 18446744073709551611) = true /\ carries GInt64 (NumInt (-5)) = true
-  /\ go_to_string GUint (NumInt 18446744073709551611) = go_to_string GInt64 (NumInt (-5))
+  /\ go_to_string GUint (NumInt 18446744073709551611) <> go_to_string GInt64 (NumInt (-5))
   /\ go_key_part GUint (NumInt 18446744073709551611) <> go_key_part GInt64 (NumInt (-5)).
-Proof. repeat split; try reflexivity. intro H. vm_compute in H. discriminate H. Qed.
+Proof. repeat split; try reflexivity; intro H; vm_compute in H; discriminate H. Qed.
